@@ -61,6 +61,17 @@ def check_req_id(c):
     t = RequestId.from_pus_tc(tc)
     eq(devs, "from_pus_tc.pack", bytes(t.pack()), bytes(tc.pack()[:4]))
     eq(devs, "from_pus_tc.as_u32", t.as_u32(), int.from_bytes(tc.pack()[:4], "big"))
+    # a request id taken from a header that its owner changes afterwards (the id shares the header's words): whatever value it then
+    # reports, equality and hash follow that value - also when the id had been hashed before
+    h2 = sp.SpacePacketHeader.unpack(raw + (7).to_bytes(2, "big"))
+    rid = RequestId.from_sp_header(h2)
+    hash(rid)
+    h2.seq_count = (p["count"] + 1) % 16384
+    h2.apid = (p["apid"] + 1) % 2048
+    twin = RequestId.unpack(rid.as_u32().to_bytes(4, "big"))
+    true(devs, "shared_header_changed.eq", rid == twin and twin == rid, "request id != id decoded from its own 32 bits")
+    true(devs, "shared_header_changed.hash", hash(rid) == hash(twin), "equal request ids hash differently after the shared header was changed")
+    true(devs, "shared_header_changed.dict", {rid: 1}.get(twin) == 1, "equal request id not found as dictionary key")
     # telecommands that carry exactly these 32 bits (any version, type, flags): decoded from octets, and adopted from a header
     from ..ref.crc import crc_bytes as _crc
 
@@ -194,6 +205,16 @@ def check_report(c):
 
     d2 = s1.Service1Tm.from_tm(PusTm.unpack(want, len(ts)), up)
     eq(devs, "from_tm.obs", obs_report(d2), want_report_obs(c))
+    # the failure notice decoded on its own, field by field out of the source data, with the failure-data length given explicitly
+    if c["err"] is not None:
+        fd = bytes.fromhex(c["fail_data"])
+        fn_raw = c["err"][1].to_bytes(c["err"][0], "big") + fd
+        for tag, buf, n in (("implicit_rest", fn_raw, None), ("explicit_len", fn_raw + b"\xc3\x5a\x00", len(fd)), ("explicit_len_exact", fn_raw, len(fd))):
+            fnd = s1.FailureNotice.unpack(buf, c["err"][0], n)
+            eq(devs, f"failure_notice.{tag}.code", (fnd.code.len(), int(fnd.code.val)), (c["err"][0], c["err"][1]))
+            eq(devs, f"failure_notice.{tag}.data", bytes(fnd.data), fd)
+            eq(devs, f"failure_notice.{tag}.repack", bytes(fnd.pack()), fn_raw)
+            eq(devs, f"failure_notice.{tag}.len", fnd.len(), len(fn_raw))
     # the subservice given as the plain integer a decoder exposes
     ri = build_report(c, int_subservice=True)
     eq(devs, "int_subservice.bytes", bytes(ri.pack()), want)
